@@ -2,7 +2,7 @@
 import os, sys, json, tempfile, shutil
 import vcommon as V
 sys.path.insert(0, os.path.join(V.VERIF, "gen"))
-import modgen
+import modgen, struct
 
 def units(blk, bits):
     if bits == 8: return list(blk)
@@ -87,7 +87,8 @@ def main():
         if rp and rp.get("engine") == "play":
             if rp.get("song"):
                 fmt = rp.get("format", "mod")
-                p = os.path.join(tmpd, "r." + fmt); open(p, "wb").write(modgen.WRITERS[fmt](rp["song"])); jobs.append((p, rp["interp"], rp["script"], (fmt, rp["song"])))
+                p = os.path.join(tmpd, "r." + ("mod" if fmt == "modfile" else fmt))
+                open(p, "wb").write(bytes.fromhex(rp["song"]["hex"]) if fmt == "modfile" else modgen.WRITERS[fmt](rp["song"])); jobs.append((p, rp["interp"], rp["script"], (fmt, rp["song"])))
             else:
                 jobs.append((os.path.join(V.REPO, rp["path"]), rp["interp"], rp["script"], None))
         elif not rp:
@@ -114,6 +115,24 @@ def main():
                     for r in range(0, 64, rng.choice((4, 8, 16))):
                         pat[r][rng.randrange(4)] = dict(note=rng.randrange(13, 37), ins=1, fx=('raw', (0x0e, 0xf0 | rng.choice((0, 1, 4, 9, 15)))) if rng.random() < 0.7 else None)
                 p = os.path.join(tmpd, "g%04d.mod" % i); open(p, "wb").write(modgen.write_mod(s)); jobs.append((p, rng.choice((0, 1, 2)), None, ("mod", s)))
+            for i in range(12 if tier == "quick" else 200):
+                # two looped samples with different loops; invert loop running on a channel while the instrument changes on a DELAYED note
+                # (EDx), by an instrument number without note, or with tone portamento: the bytes invert loop complements must be those of
+                # the loop of the sample that is playing
+                L = len(modgen.SAMPLE) // 2
+                pat = modgen.empty_pattern(64, 4)
+                pat[0][0] = dict(note=25, ins=1, fx=('raw', (0x0e, 0xf0 | rng.choice((9, 12, 15)))))
+                r = rng.choice((2, 3, 5))
+                while r < 60:
+                    pat[r][0] = rng.choice((dict(note=rng.choice((20, 27)), ins=rng.choice((1, 2)), fx=('raw', (0x0e, 0xd0 | rng.choice((1, 2, 3))))),
+                                            dict(ins=rng.choice((1, 2))), dict(note=22, ins=2, fx=('raw', (0x03, 0x10))), dict(note=24, ins=rng.choice((1, 2)), fx=('raw', (0x0e, 0xf0 | rng.choice((0, 14, 15)))))))
+                    r += rng.choice((2, 4, 7))
+                s = dict(chn=4, orders=[0], patterns=[pat], speed=rng.choice((3, 6)), bpm=125, restart=0x7f, name="invloop swap", loop=rng.choice(((0, 2), (1, 3), (0, 4))))
+                b = bytearray(modgen.write_mod(s))
+                lp2 = rng.choice(((L - 6, 6), (12, 5), (L // 2, 3)))
+                struct.pack_into(">HBBHH", b, 20 + 30 + 22, L, 0, 64, lp2[0], lp2[1])
+                b += bytes((x + 37) & 255 for x in modgen.SAMPLE)
+                p = os.path.join(tmpd, "i%04d.mod" % i); open(p, "wb").write(bytes(b)); jobs.append((p, rng.choice((0, 1, 2)), None, ("modfile", {"hex": bytes(b).hex()})))
         lines = []
         for k, (path, interp, script, song) in enumerate(jobs):
             if script is None:
